@@ -916,8 +916,8 @@ def _san_der_enum(tier, shard, nshards):
 # The grids are exhaustive on the production build; the sanitizer build (about 8x slower per case under the ASan-preloaded interpreter) takes every third case of the
 # same enumeration, which still contains every structural form with several values.
 TESTS = [
-    Test("pub_grid", pub_enum, run_pub_enum, kind="enum", cfgs=PROD, max_workers=8, must_cover=_PUB_COVER),
-    Test("pub_grid_san", _san_pub_enum, run_pub_enum, kind="enum", cfgs=SAN, max_workers=8, must_cover=_PUB_COVER),
+    Test("pub_grid", pub_enum, run_pub_enum, kind="enum", cfgs=PROD, max_workers=4, must_cover=_PUB_COVER),
+    Test("pub_grid_san", _san_pub_enum, run_pub_enum, kind="enum", cfgs=SAN, max_workers=4, must_cover=_PUB_COVER),
     Test("der_grid", der_enum, run_der_enum, kind="enum", cfgs=PROD, max_workers=8, must_cover=_DER_COVER),
     Test("der_grid_san", _san_der_enum, run_der_enum, kind="enum", cfgs=SAN, max_workers=8, must_cover=_DER_COVER),
     Test("compact_grid", compact_enum, run_compact_enum, kind="enum", cfgs=CF, max_workers=2,
@@ -930,5 +930,5 @@ TESTS = [
 
 FUZZ_TARGETS = [
     FuzzTarget("fuzz_codec", "fuzz_codec.c", cfgs={"quick": ["vsan"], "thorough": ["vsan", "prod"]},
-               runs={"quick": 200000, "thorough": 4000000}, workers={"quick": 8, "thorough": 16}, max_len=400, corpus="fuzz_codec", link=("-lgmp",)),
+               runs={"quick": 160000, "thorough": 3000000}, workers={"quick": 8, "thorough": 16}, max_len=400, corpus="fuzz_codec", link=("-lgmp",)),
 ]
